@@ -5,6 +5,7 @@ import asyncio
 import copy
 import inspect
 import itertools
+import os
 import json
 import random
 import re
@@ -280,6 +281,10 @@ def gen_command(rng, cls, short=False):
         if rng.random() < 0.5:
             args = rng.choice([(), (1,), (1, 2), ("x",), (1, "y", 3.5), ([1, 2],), ([1, 2], {"a": [3]})])
             text.append(opt("--args", "-a") + " " + lit(args))
+            if rng.random() < 0.06:
+                # valid as a Python literal and as JSON, but with different meanings (Python keeps the backslash of \/)
+                text[-1] = opt("--args", "-a") + ' ["a\\/b","http:\\/\\/host"]'
+                args = ["a\\/b", "http:\\/\\/host"]
             if rng.random() < 0.08:
                 # a literal with an escape sequence Python does not know: still a valid literal ('\\d' is backslash + d)
                 args = ("\\d+",)
@@ -555,7 +560,8 @@ def invalid_line(rng, cls, token):
                        f"pool-size {bad}", f"cancel {bad}", f"starmap {W}work [(1,2)] --num-concurrent {bad}"])
 
 
-JUNK = ["['\\d']", "'\\w+'", "==SUPPRESS==", "--", "-", "--zz", "-x", "'", "\"", "((", "[1,", "{'a':}", "9" * 30, "éü中", "a=b", "%s", "$(ls)",
+LATIN1_FILE = os.path.join(os.path.dirname(os.path.abspath(__file__)), "fixtures", "latin1.txt")
+JUNK = ["@" + LATIN1_FILE, "['\\d']", "'\\w+'", "==SUPPRESS==", "--", "-", "--zz", "-x", "'", "\"", "((", "[1,", "{'a':}", "9" * 30, "éü中", "a=b", "%s", "$(ls)",
         "None", "True", "-0", "1e9", "tpsim.nope.x", "os.system", "..", "apply", "-h", "--help", "\t", "\\", "@file"]
 
 
